@@ -638,6 +638,9 @@ func Run(rep *core.Report, args *core.Args, sel Select) {
 	statMu.Lock()
 	rep.Extra["faults_fault_points_by_outcome"] = outcomes
 	statMu.Unlock()
+	if ents, err := os.ReadDir("/proc/self/fd"); err == nil {
+		rep.Extra["faults_open_descriptors_at_the_end"] = len(ents)
+	}
 }
 
 var statMu sync.Mutex
@@ -713,6 +716,12 @@ func sweep(rep *core.Report, sel Select, c Case, l sim.Layout, variant string) {
 func violate(rep *core.Report, sel Select, group, monitor, sig string, detail map[string]any, c Case, l sim.Layout, variant string, k int, hit string) {
 	if !sel.has(group) {
 		return
+	}
+	// the harness process itself ran out of descriptors or ports: what a node did then says nothing about litefs
+	if b, err := json.Marshal(detail); err == nil {
+		if s := string(b); (strings.Contains(s, "too many open files") && hit != "" && !strings.HasPrefix(hit, "Open") && !strings.HasPrefix(hit, "Create")) || strings.Contains(s, "address already in use") {
+			core.Infra("faults: resource exhaustion in the harness process (%s): %s", monitor, s)
+		}
 	}
 	detail["case"] = c.Key()
 	detail["variant"] = variant
